@@ -1,6 +1,7 @@
 """C08 — coverage histogram rows bin each window by its global k-mer multiplicity."""
 from .common import *
 from . import c07
+from .c04 import row_rule
 
 EXPLANATION = (
     "Slot rules on coverage::CovComputer: (B) vectorise_one — key = min(fwd, rev) of "
@@ -32,6 +33,7 @@ def run(ctx):
         nfmt = number_format_rule(ctx, "C08.R", fv, "compute_coverages", None, SF("norm"))
         if nfmt < 4:
             ctx.fail("C08.R", "compute_coverages:value_formats:floor", "expected 4 value formats (2 blocks x norm/raw), found %d" % nfmt, fv.fn["sp"])
+        row_rule(ctx, fv, "compute_coverages", None, "C08.R")
         inputs_rule(ctx, fv)
 
 
